@@ -155,8 +155,8 @@ func execute(e *Exp) {
 	select {
 	case o := <-ch:
 		e.Res, e.Stuck = o.res, o.stuck
-	case <-time.After(10 * time.Second):
-		e.Res, e.Stuck = []Res{{Kind: "panic", B: hx.B{}, Msg: "timeout: ReadAndConvert did not return within 10 s"}}, false
+	case <-time.After(30 * time.Second):
+		e.Res, e.Stuck = []Res{{Kind: "panic", B: hx.B{}, Msg: "timeout: ReadAndConvert did not return within 30 s"}}, false
 	}
 }
 
